@@ -344,11 +344,11 @@ def two_tiers(S, cfg):
 
 INV = {"loop#1": {"invariant": {"var": "retTier", "builder": inv_tier, "clauses": wf_clauses("retTier")}}}
 
-contract(TT + ".union", serves=["C05", "C10"], spec_module="spec.tiers",
+contract(TT + ".union", serves=["C05", "C10", "C13"], spec_module="spec.tiers",
          configs={"kind": ["interval", "point"]}, inputs=two_tiers, loops=INV, frame=["self", "tier"],
          ensures=[("well-formed", "well_formed(result)")])
 
-contract(IT + ".difference", serves=["C05", "C10"], spec_module="spec.tiers",
+contract(IT + ".difference", serves=["C05", "C10", "C13"], spec_module="spec.tiers",
          configs={"kind": ["interval"]}, inputs=two_tiers, loops=INV, frame=["self", "tier"],
          ensures=[("well-formed", "well_formed(result)")])
 
